@@ -16,10 +16,11 @@ func TestC02(t *testing.T) {
 		"generated rule sets respect the documented memo contract (DESIGN 2.5 R1-R4)",
 		"the engine's map iteration order cannot be seeded: every case is executed 2-3 times")
 	defer col.Flush()
-	cfg := rsGenCfg{Rules: fullRuleCfg(), GRB: true, Vary: true, JSONFront: true, Rejected: true}
+	cfg := rsGenCfg{Rules: fullRuleCfg(), GRB: true, Vary: true, JSONFront: true, Rejected: true, RemovedSibling: true}
 	check(t, 0, budget(6000, 80000), func(rt *rapid.T) {
 		c, rs := genRSCase(rt, cfg)
 		maybeFailingConditions(rt, c, rs)
+		maybeBareCondition(rt, c, rs)
 		maybeUsedBefore(rt, c, rs, cfg.Rules.State)
 		rep, v := runValidated(rt, c, "C02")
 		nt := rep.FlipsFT > 0 || (rep.EndedBy == "quiescence" && rep.Firings >= 2)
